@@ -256,3 +256,22 @@ PROPS['C20'] = dict(
          'non-trivial = a creation happened while the simulation was initialised',
     assumptions=['new devices are wired to existing devices that are not sinks'],
 )
+
+
+import c14 as _c14
+
+PROPS['C14'] = dict(
+    modules=['SimProc.Props.C14'], prop_files=['SimProc/Props/C14.lean'],
+    families=[('env', 200, 3000), ('floor', 60, 1000)],
+    tags=tags(*BASE, 'rec', 'd', 'p'),
+    monitors=[], nontrivial=env_nontrivial, stats=op_stats, divergence_is_witness=True,
+    divergence_text='the model is a function of (scenario, weight function); the implementation must compute the same '
+                    'function whatever the asset-id offset',
+    extra=_c14.metamorphic,
+    rule='families env and floor against the model (= determinism transfer, scenarios carry random asset-id offsets), plus '
+         'metamorphic runs of the real code: same seed twice with the unpatched random weights, fresh interpreters with '
+         'different PYTHONHASHSEED, split runs vs one run with keyed weights, simulate_multiple_times in-process vs worker '
+         'processes; non-trivial = same-time events with different priorities executed or an event paused',
+    assumptions=['worker-process equality and independence from hash order / object identity are CHECKED, not proved'],
+    partial=['worker processes, hash order: checked only (cannot be proved about CPython from here)'],
+)
